@@ -198,6 +198,14 @@ func runC10(c *Ctx) {
 				}
 			}
 		}
+		// the representatives are unsigned 32-bit values, as the wire format has
+		// them; with a signed type the upper half of the range compares below zero
+		{
+			bt, _ := typeF.Type().Underlying().(*types.Basic)
+			okT := bt != nil && bt.Info()&types.IsUnsigned != 0 && sizesAMD64.Sizeof(typeF.Type()) == 4
+			c.check(okT, "C10.R1", "entry-type-unsigned multiboot.MemoryMapEntry.Type", "the region type is an unsigned 32-bit value, as the multiboot2 memory map encodes it",
+				"the region type is not an unsigned 32-bit integer ("+typeF.Type().Underlying().String()+"): types 0x80000000 and above compare as negative and escape the `>= memUnknown` normalisation", m.pos(typeF.Pos()))
+		}
 		c.check(len(wrong) == 0, "C10.R1", "normalisation-set "+m.fnName(visitMem),
 			fmt.Sprintf("%d representative values (one per interval between compared constants) evaluated: exactly the undefined ones {%s} are rewritten", len(rs), strings.Join(normalised, ",")),
 			strings.Join(wrong, "; "), g.posOf(sn))
